@@ -204,6 +204,37 @@ CHECK_DEADLOCK FALSE
 '''
 
 
+def abort_sweep(chk):
+  """a single abort (thread or simulated SIGINT) at every scheduling point of
+  whole runs - the schedule sweep of the C04 check - judged on the clauses of
+  C09 that can be read off the record handed to the callbacks"""
+  from checks import c04
+  sys.argv = sys.argv[:1]
+  from vf import build, explore  # noqa: F401
+  quick = chk.tier == 'quick'
+  jobs = []
+  for prog_name, source in (('group', 'thread'), ('start', 'thread'), ('repeat', 'thread'), ('subtest', 'thread'),
+                            ('group', 'sigint')):
+    roots = explore.split_roots(c04.make_run(prog_name, source, 1), 1, 6)
+    cap = 4000 if quick else 40000
+    per = max(50, cap // max(1, len(roots)))
+    for r in roots:
+      jobs.append((prog_name, source, 1, 1, r, per))
+  seeds = [chk.seed * 104729 + i for i in range(150 if quick else 2000)]
+  rjobs = [('group', 'thread', 1, seeds[k::6]) for k in range(6)]
+  with mp.Pool(14, maxtasksperchild=8) as pool:
+    outs = pool.map(c04.explore_job, jobs, chunksize=1) + pool.map(c04.random_job, rjobs, chunksize=1)
+  n = 0
+  for o in outs:
+    n += o['n']
+    for sig, det in o['rec_bad']:
+      chk.violation(sig, det)
+  chk.traces += n
+  chk.nontrivial += n
+  chk.tlc_runs.append(dict(name='abort sweep (single abort at every scheduling point), record clauses', schedules=n))
+  chk.log('%d schedules with a single abort judged on the record clauses' % n)
+
+
 def main(chk):
   res = tlc.must_pass(tlc.run('Lifecycle', 'Lifecycle_mc.cfg', coverage=True), 'Lifecycle design check')
   cov = res.coverage()
@@ -216,7 +247,7 @@ def main(chk):
     runs = [dict(paths=allp, calls=2, raisesets='{{}, {2}, {1, 2, 3}}', duts='{TRUE}'),
             dict(paths='"pass", "error", "abort"', calls=3, raisesets='{{}, {1, 3}}', duts='{FALSE}')]
   else:
-    runs = [dict(paths=allp, calls=2, raisesets='SUBSET (1..3)', duts='{TRUE, FALSE}'),
+    runs = [dict(paths=allp, calls=2, raisesets='{{}, {1}, {2}, {3}, {1, 2}, {1, 3}, {2, 3}, {1, 2, 3}}', duts='{TRUE, FALSE}'),
             dict(paths=allp, calls=3, raisesets='{{}, {1, 3}}', duts='{FALSE}')]
   with mp.Pool(14, maxtasksperchild=30) as pool:
     for r in runs:
@@ -233,6 +264,7 @@ def main(chk):
         if o['sample']:
           chk.sample(o['sample'])
       chk.log('%d histories of %d execute() calls replayed' % (n, r['calls']))
+  abort_sweep(chk)
   # binding self-test: a corrupted expectation must be reported
   h = [dict(path='pass', raises=set(), overlap=False, dut=True, oc='PASS', ret='False',
             cbs=[[1, 'ok'], [2, 'ok'], [3, 'ok']], refused=0)]
@@ -251,6 +283,22 @@ def main(chk):
 def replay(path):
   with open(path) as fh:
     sc = json.load(fh)['scenario']
+  if 'history' not in sc:
+    import random
+    from checks import c04
+    from vf import build, sched  # noqa: F401
+    sys.argv = sys.argv[:1]
+    pol = sched.Replay(sc['schedule']) if 'schedule' in sc else sched.RandomPolicy(random.Random(sc['seed']), 0.25)
+    failure, box = None, {}
+    try:
+      _, box = c04.make_run(sc['program'], sc['source'], sc['aborts'])(pol)
+    except (sched.Deadlock, sched.StepBudget) as e:
+      failure = e
+    for sig in c04.record_final(box or {}, failure):
+      print('VIOLATION property=C09 replay=%s\n  what: %s' % (path, sig))
+      return 1
+    print('replay: the record of this schedule is complete and final')
+    return 0
   h = sc['history']
   for c in h:
     c['raises'] = set(c['raises'])
